@@ -90,7 +90,7 @@ fn lib_key_ids(p: &Packet) -> Option<(Vec<u8>, [u8; 8], Vec<u8>, [u8; 8])> {
 /// Key packets assembled by the harness for every curve the format names (fixtures exist for a
 /// few only): (description, framed packet).  Points of the curves the library computes with are
 /// genuine (taken from generated keys); the others are field-sized octet patterns.
-fn synthetic_curve_keys() -> Vec<(String, Vec<u8>)> {
+pub fn synthetic_curve_keys() -> Vec<(String, Vec<u8>)> {
     use crate::reference::frame::frame_min;
     let pubmat = |kind: KeyKind, sub: bool| -> Vec<u8> {
         let cert = common::cert(kind, 1);
